@@ -180,8 +180,29 @@ pub fn run(input: &mut dyn BufRead, out: &mut dyn Write, _args: &[String]) -> R 
                 .map(|f| {
                     let b = blob(f);
                     match guarded(|| {
+                        use pnet::packet::Packet;
+                        // what each crate's own packet parser makes of the frame (null when it does not read it as TCP over IP):
+                        // sender address, directed and undirected 4-tuple -- the identities the three pools key on
+                        let ports = |pl: &[u8]| pnet::packet::tcp::TcpPacket::new(pl).map(|t| (t.get_source(), t.get_destination()));
+                        let seen_tcp = match huginn_net_tcp::packet_parser::parse_packet(&b) {
+                            huginn_net_tcp::packet_parser::IpPacket::Ipv4(p) if p.get_next_level_protocol().0 == 6 => Some(p.get_source().to_string()),
+                            huginn_net_tcp::packet_parser::IpPacket::Ipv6(p) if p.get_next_header().0 == 6 => Some(p.get_source().to_string()),
+                            _ => None,
+                        };
+                        let seen_http = match huginn_net_http::packet_parser::parse_packet(&b) {
+                            huginn_net_http::packet_parser::IpPacket::Ipv4(p) if p.get_next_level_protocol().0 == 6 => ports(p.payload()).map(|(x, y)| (format!("{}|{}", p.get_source(), x), format!("{}|{}", p.get_destination(), y))),
+                            huginn_net_http::packet_parser::IpPacket::Ipv6(p) if p.get_next_header().0 == 6 => ports(p.payload()).map(|(x, y)| (format!("{}|{}", p.get_source(), x), format!("{}|{}", p.get_destination(), y))),
+                            _ => None,
+                        };
+                        let seen_tls = match huginn_net_tls::packet_parser::parse_packet(&b) {
+                            huginn_net_tls::packet_parser::IpPacket::Ipv4(p) if p.get_next_level_protocol().0 == 6 => ports(p.payload()).map(|(x, y)| format!("{}|{}>{}|{}", p.get_source(), x, p.get_destination(), y)),
+                            huginn_net_tls::packet_parser::IpPacket::Ipv6(p) if p.get_next_header().0 == 6 => ports(p.payload()).map(|(x, y)| format!("{}|{}>{}|{}", p.get_source(), x, p.get_destination(), y)),
+                            _ => None,
+                        };
+                        let seen_http = seen_http.map(|(a, z)| if a <= z { format!("{a}~{z}") } else { format!("{z}~{a}") });
                         let t = huginn_net_tcp::packet_hash::hash_source_ip(&b);
                         json!({
+                            "seen": {"tcp": seen_tcp, "http": seen_http, "tls": seen_tls},
                             "tcp": ns.iter().map(|n| t.checked_rem(*n).unwrap_or(0) as i64).collect::<Vec<_>>(),
                             "http": ns.iter().map(|n| huginn_net_http::packet_hash::hash_flow(&b, *n) as i64).collect::<Vec<_>>(),
                             "tls": ns.iter().map(|n| huginn_net_tls::packet_hash::hash_flow(&b, *n).map(|x| x as i64).unwrap_or(-1)).collect::<Vec<_>>(),
